@@ -1,8 +1,8 @@
 import MJ.Props.C18
-#print axioms MJ.C18.reads_subset_undeclared_or_selfref
 #print axioms MJ.C18.reads_subset_undeclared
-#print axioms MJ.C18.reads_subset_undeclared_partial
-#print axioms MJ.C18.reads_root_of_nested_or_selfref
+#print axioms MJ.C18.abort_reads_prefix
 #print axioms MJ.C18.reads_root_of_nested
-#print axioms MJ.C18.C18_counterexample
+#print axioms MJ.C18.nested_reported_are_paths
+#print axioms MJ.C18.macro_body_asks_nothing
+#print axioms MJ.C18.expression_code_binds_nothing
 #print axioms MJ.C18.analysis_no_panic
